@@ -204,10 +204,24 @@ class EventReplayer:
             status=state_dict.get("status"),
             application=state_dict.get("application"),
             name=state_dict.get("name"),
+            start_time=self._parse_snapshot_time(state_dict.get("start_time")),
+            end_time=self._parse_snapshot_time(state_dict.get("end_time")),
             context=state_dict.get("context", {}),
             stages=state_dict.get("stages", {}),
             tasks=state_dict.get("tasks", {}),
         )
+
+    @staticmethod
+    def _parse_snapshot_time(value: Any) -> datetime | None:
+        """Snapshots hold WorkflowState.to_dict() output: ISO strings (or None)."""
+        if isinstance(value, datetime):
+            return value
+        if isinstance(value, str):
+            try:
+                return datetime.fromisoformat(value[:-1] + "+00:00" if value.endswith("Z") else value)
+            except ValueError:
+                return None
+        return None
 
     def _apply_event(self, state: WorkflowState, event: Event) -> None:
         """Apply an event to update the state.
